@@ -46,10 +46,10 @@ def unesc_py(s):
     return out
 
 
-def layout_tok(root):
-    toks = []
+def layout_tok(root, dangling=()):
+    toks = ["X" + enc(list(n)) for n in dangling]
     for name, isdir, ch in root:
-        toks.append(("D" if isdir else "F") + enc(name))
+        toks.append(("S" if isdir == "link" else "D" if isdir else "F") + enc(name))
         for cn, cd in ch:
             toks.append(("H" if cd else "G") + enc(name) + "|" + enc(cn))
     return ",".join(toks) if toks else "_"
@@ -64,6 +64,8 @@ def gen_layout(rng):
             continue
         names.add(n)
         isdir = rng.random() < 0.35
+        if isdir and rng.random() < 0.3:
+            isdir = "link"         # the directory is reached through a symbolic link: still a directory to every completion
         ch = []
         if isdir:
             cn = set()
@@ -125,7 +127,14 @@ def c15_corr(res, exe, driver, tier, seed, tmp):
         root = gen_layout(rng)
         if not root:
             continue
-        lt = layout_tok(root)
+        # sometimes a dangling symbolic link lies in the directory too: never offered, never in the way
+        dang = []
+        if rng.random() < 0.25:
+            used = {tuple(n) for n, _, _ in root}
+            d = tuple(rng.choice(NAME_ALPHA) for _ in range(rng.randint(1, 3)))
+            if ok_name(list(d)) and d not in used:
+                dang = [d]
+        lt = layout_tok(root, dang)
         targets = []
         for name, isdir, ch in root:
             targets.append(name)
